@@ -29,7 +29,7 @@ pub fn check(tier: Tier) -> Check {
         also_rel: false,
         property: "C08",
         level: "model_checking",
-        rule: "all sequences of inbound PUBLISH (QoS 0/1/2 x DUP x packet id x subscription identifier absent / live stream / dropped stream / never registered) and PUBREL (also several packets arriving in one read, repeated PUBRELs, PUBRELs for identifiers never seen, PUBRELs in their three-byte form with reason 0x92 and in full with a reason string), with one client publish interleaved; across a resume / a plain reconnect with an inbound QoS 2 exchange open (no acknowledgement is repeated on its own); the same under a Maximum Packet Size of 2 / 3 bytes (which binds the client's requests, not its acknowledgements); the same on the second connection of a Context whose first connection ended inside an inbound packet or with a failed acknowledgement write; the wire must show exactly one PUBACK/PUBREC/PUBCOMP per packet with its identifier, in arrival order; non-trivial = at least one acknowledgement was due".into(),
+        rule: "all sequences of inbound PUBLISH (QoS 0/1/2 x DUP x packet id x subscription identifier absent / live stream / dropped stream / never registered) and PUBREL (also several packets arriving in one read, repeated PUBRELs, PUBRELs for identifiers never seen, PUBRELs in their three-byte form with reason 0x92 and in full with a reason string), with one client publish interleaved; across a resume / a plain reconnect with an inbound QoS 2 exchange open (no acknowledgement is repeated on its own); the same under a Maximum Packet Size of 2 / 3 bytes (which binds the client's requests, not its acknowledgements); the same on the second connection of a Context whose first connection ended inside an inbound packet or with a failed acknowledgement write; the wire must show exactly one PUBACK/PUBREC/PUBCOMP per packet with its identifier, in arrival order; messages with Payload Format Indicator 1 over bytes that are not UTF-8; value flavour incl. alias-only inbound messages on a connection that allows aliases; non-trivial = at least one acknowledgement was due".into(),
         assumptions: vec!["the reason code inside the client's acknowledgement is unconstrained".into()],
         parts,
     }
